@@ -28,6 +28,12 @@ Audit extensions (classes of inputs inside the quantifier that the first version
 * transformations that are NOT exact in floating point (unit conversions such as 9.81, 1e-3, -273.15) on generic float series
   that are free of range ties, with a rounding-error tolerance and a tie margin computed per case;
 * every call of the implementation is wrapped: an exception is a failing clause, never a harness crash.
+
+Round-4 extension (time grids): the property quantifies over series, and a time series object need not have a constant time step.
+Every entry point is therefore also evaluated on seeded NON-UNIFORM time grids (steps dt*m_i, m_i cycling through a seeded pattern),
+and the refinement clause is additionally evaluated with the redundant samples stamped IN BETWEEN the time stamps of their
+neighbours (original samples keep their time stamps, so a uniform series becomes a non-uniform one) -- in particular through the GUI
+wrapper `app.funcs.calculate_rfc`, with a time window spanning the series and with `twin=None`.
 """
 from fractions import Fraction
 
@@ -41,9 +47,13 @@ RULE = ("seeded random dyadic series (plateaus, ties, random walks) and all word
         "for each: shift, positive scale, negation, sample repetition, in-between insertion, recount from turning points, "
         "and the same clauses (plus resampling to half the time step) through the TimeSeries.rfc()/calculate_rfc entry points "
         "with seeded time origin and dyadic time step (thorough: one seeded entry point per series longer than 6); "
+        "the refinement clause also with the redundant samples time-stamped in between their neighbours (varying time step) through "
+        "the GUI wrapper and one seeded entry point; on a seeded 20 % of the cases all clauses through the GUI wrapper (with / "
+        "without time window) or one seeded entry point with the series stored on a seeded non-uniform time grid; "
         "on the corpus, all words of length <= 4 and a seeded subset of the rest additionally: the clauses through two seeded "
-        "spellings of the series (containers / dtypes / views), heavier insertion patterns, twelve more entry points, object and "
-        "ndarray histories with in-place replacement of the data, model correspondence of the refined series with end points; "
+        "spellings of the series (containers / dtypes / views), heavier insertion patterns, thirteen more entry points (a seeded "
+        "selection of them also on a non-uniform time grid), object and ndarray histories with in-place replacement of the data, "
+        "model correspondence of the refined series with end points; "
         "separately seeded generic float series (gaussian / decimal data) with inexact unit conversions a*x+b under a per-case "
         "rounding tolerance, skipped unless every slope and every pair of candidate ranges is separated by 100x that tolerance; "
         "non-trivial = original series has at least one cycle; distinct by series")
@@ -66,7 +76,7 @@ def fr_(v):
 def table(x, ep=False):
     from qats.fatigue.rainflow import count_cycles
     c = count_cycles(np.array([float(v) for v in x]), endpoints=ep)
-    return sorted(tuple(fr_(v) for v in row) for row in c.tolist())
+    return [tuple(fr_(v) for v in row) for row in sorted(map(tuple, c.tolist()))]
 
 
 def exactbits(vals, bits=53, emax=900):
@@ -159,13 +169,33 @@ def is_f8b_shape(seq):
 
 # ---- entry points that count the cycles of a time series object ----------------------------------------------------
 def _norm(c):
-    return sorted(tuple(fr_(v) for v in row) for row in np.asarray(c).tolist())
+    # sorted as floats (the conversion to Fraction is exact, hence monotone: the same order, without Fraction comparisons)
+    return [tuple(fr_(v) for v in row) for row in sorted(map(tuple, np.asarray(c).tolist()))]
+
+
+def _nominal(dt):
+    """nominal time step of a grid (the step itself for a uniform grid)"""
+    return Fraction(dt[1]) if isinstance(dt, tuple) else Fraction(dt)
+
+
+def grid_times(n, t0, dt):
+    """time stamps (float ndarray) of n samples.  `dt` is a number (constant step), ("steps", dt, mults): non-uniform grid with
+    steps dt*mults[i % len(mults)], or ("times", dt, stamps): explicit stamps (one per sample; dt is the nominal step).
+    Origins, steps and multipliers are small dyadic numbers, so the float arithmetic below is exact."""
+    if isinstance(dt, tuple) and dt[0] == "times":
+        if len(dt[2]) != n:
+            raise ValueError("harness: %d time stamps for %d samples" % (len(dt[2]), n))
+        return np.array(dt[2], dtype=float)
+    if isinstance(dt, tuple):
+        m = np.resize(np.array([float(v) for v in dt[2]]), max(n - 1, 0)) if n > 1 else np.array([])
+        return float(t0) + float(dt[1]) * np.concatenate(([0.0], np.cumsum(m)))[:n]
+    return float(t0) + float(dt) * np.arange(n, dtype=float)
 
 
 def _mkts(x, t0, dt, name="signal"):
     from qats import TimeSeries
     xa = np.array([float(v) for v in x])
-    ta = float(t0) + float(dt) * np.arange(xa.size, dtype=float)
+    ta = grid_times(xa.size, t0, dt)
     return TimeSeries(name, ta, xa), ta, xa
 
 
@@ -199,6 +229,14 @@ def _e_app(x, t0, dt):
     return sorted((Fraction(float(a)), Fraction(float(b))) for a, b in zip(r, c))
 
 
+def _e_app_notwin(x, t0, dt):
+    """GUI helper without a time window (what the GUI passes before the user narrows the window)"""
+    from qats.app.funcs import calculate_rfc
+    ts, _, _ = _mkts(x, t0, dt)
+    r, c = calculate_rfc({"signal": ts}, None, None, None)["signal"]
+    return _rc(r, c)
+
+
 ENTRIES = {
     "TimeSeries.rfc()": _e_plain,
     "TimeSeries.rfc(twin=whole series)": _e_twin,
@@ -212,7 +250,7 @@ def _mkts_int(x, t0, dt, name="signal"):
     """integer-valued samples / times are handed to TimeSeries as int64 arrays (float arrays otherwise)"""
     from qats import TimeSeries
     xs = [Fraction(v) for v in x]
-    tt = [Fraction(t0) + Fraction(dt) * i for i in range(len(xs))]
+    tt = [Fraction(float(v)) for v in grid_times(len(xs), t0, dt)]
 
     def arr(vals):
         if all(v.denominator == 1 and abs(v) < 2 ** 62 for v in vals):
@@ -228,14 +266,15 @@ def _e_int(x, t0, dt):
 def _e_irregular(x, t0, dt):
     from qats import TimeSeries
     xa = np.array(fl(x))
-    steps = [float(dt) * ((i * i) % 3 + 1) for i in range(max(xa.size - 1, 0))]
+    steps = [float(_nominal(dt)) * ((i * i) % 3 + 1) for i in range(max(xa.size - 1, 0))]
     ta = float(t0) + np.concatenate(([0.0], np.cumsum(steps))) if xa.size else np.array([])
     return _norm(TimeSeries("signal", ta, xa).rfc())
 
 
 def _e_wide(x, t0, dt):
     ts, ta, _ = _mkts(x, t0, dt)
-    return _norm(ts.rfc(twin=[float(ta[0]) - float(dt), float(ta[-1]) + 3 * float(dt)]))
+    h = float(_nominal(dt))
+    return _norm(ts.rfc(twin=[float(ta[0]) - h, float(ta[-1]) + 3 * h]))
 
 
 def _same_samples(ts, xa, opts):
@@ -247,7 +286,7 @@ def _same_samples(ts, xa, opts):
 def _e_noop(x, t0, dt):
     """options that are given but do nothing: resampling to the stored step, no taper, one-sample smoothing window"""
     ts, ta, xa = _mkts(x, t0, dt)
-    opts = dict(twin=None, resample=float(dt), taperfrac=0.0, window_len=1, filterargs=None)
+    opts = dict(twin=None, resample=float(_nominal(dt)), taperfrac=0.0, window_len=1, filterargs=None)
     if not _same_samples(ts, xa, opts):
         return None
     return _norm(ts.rfc(**opts))
@@ -347,6 +386,11 @@ ENTRIES2 = {
     "app.funcs.calculate_rfc(TsDB.getm(names, store=False), nbins=None)": _e_db_app,
 }
 ENTRIES2.update({k: _e_app_bins(v) for k, v in BINS.items()})
+ENTRIES2["app.funcs.calculate_rfc(twin=None, nbins=None)"] = _e_app_notwin
+# entry points whose options presuppose a constant time step (on another grid they are not a spelling of `count the series`)
+UNIFORM_ONLY = ("TimeSeries.rfc(resample=dt, taperfrac=0.0, window_len=1, filterargs=None, twin=None)",
+                "TimeSeries.rfc() on an irregular time grid")
+APP_PLAIN = ("app.funcs.calculate_rfc(nbins=None)", "app.funcs.calculate_rfc(twin=None, nbins=None)")
 PLOTS = {
     "TimeSeries.plot_cycle_rangemean(show=False) scatter data": _e_plot_ts,
     "TsDB.plot_cycle_rangemean(names, show=False) scatter data": _e_plot_db,
@@ -390,6 +434,8 @@ def pow2(a):
 def transform(tab, a, b):
     if isinstance(tab, str):
         return tab
+    if a == -1 and b == 0:              # (the same values as below, without the Fraction products)
+        return sorted((row[0], -row[1], row[2]) if len(row) == 3 else row for row in tab)
     return sorted((abs(a) * row[0], a * row[1] + b, row[2]) if len(row) == 3 else (abs(a) * row[0], row[1]) for row in tab)
 
 
@@ -415,9 +461,24 @@ def show(tab):
     return tab if isinstance(tab, str) or tab is None else [list(map(str, r)) for r in tab]
 
 
-def entry_clauses(name, s, t0, dt, a, b, t2, report, skip=None, factors=(2, 4)):
-    """the property's clauses evaluated through one entry point; `report(oracle, input, expected, observed, clause)`"""
-    common = dict(series=[str(v) for v in s], entry=name, t0=str(t0), dt=str(dt))
+def refined_times(n, t0, dt, at):
+    """time stamps of a refined series whose k-th sample sits at `at[k] = (i, lam)`: the i-th original time stamp plus the
+    fraction lam of the following time step (of the nominal step after the last sample); lam = 0 for the original samples"""
+    T = grid_times(n, t0, dt)
+    gap = np.append(np.diff(T), float(_nominal(dt)))
+    idx = np.array([i for i, _ in at], dtype=int)
+    return T[idx] + np.array([float(lam) for _, lam in at]) * gap[idx]
+
+
+def entry_clauses(name, s, t0, dt, a, b, t2, report, skip=None, factors=(2, 4), at2=None, untimed=True):
+    """the property's clauses evaluated through one entry point; `report(oracle, input, expected, observed, clause)`.
+    `dt`: constant time step, or ("steps", dt, mults) for a non-uniform time grid (see grid_times).  `at2`: positions in time of
+    the samples of the refined series `t2` (see refined_times); when given, the refinement clause is also evaluated with the
+    redundant samples stamped in between their neighbours, the original samples keeping their time stamps (`untimed=False`: only
+    so, without the evaluation on the grid continued over the longer series)."""
+    common = dict(series=[str(v) for v in s], entry=name, t0=str(t0), dt=str(_nominal(dt)))
+    if isinstance(dt, tuple):
+        common["grid"] = [str(m) for m in dt[2]]
     if _VAR.get("s") is not s:          # float variants of this case are shared by all its entry points
         _VAR.clear()
         _VAR["s"] = s
@@ -443,11 +504,18 @@ def entry_clauses(name, s, t0, dt, a, b, t2, report, skip=None, factors=(2, 4)):
             report("%s of a*x+b: ranges |a|*r, means a*m+b, same counts (negation mirrors the means)" % name,
                    dict(common, a=str(aa), b=str(bb)), show(exp), show(got), "entry-affine")
     if t2 is not None:
-        got = entry(name, _VAR["t2"], t0, dt)
+        got = entry(name, _VAR["t2"], t0, dt) if untimed or at2 is None else None
         if got is not None and got != base:
             report("%s: inserting repeated / in-between samples changes nothing" % name,
                    dict(common, refined=[str(v) for v in t2]), show(base), show(got), "entry-refine")
-    if name == "TimeSeries.rfc()" and len(s) >= 2:
+        if at2 is not None and len(at2) == len(t2):
+            got = entry(name, _VAR["t2"], t0, ("times", _nominal(dt), refined_times(len(s), t0, dt, at2)))
+            if got is not None and got != base:
+                report("%s: inserting repeated / in-between samples, time-stamped in between their neighbours (the original "
+                       "samples keep their time stamps), changes nothing" % name,
+                       dict(common, refined=[str(v) for v in t2], refined_at=[[int(i), str(lam)] for i, lam in at2]),
+                       show(base), show(got), "entry-refine-time")
+    if name == "TimeSeries.rfc()" and len(s) >= 2 and not isinstance(dt, tuple):
         for m in factors:
             try:
                 got = resampled(var(Fraction(1), Fraction(0)), t0, dt, m)
@@ -842,6 +910,19 @@ def heavy_refine(rng, s):
     return out
 
 
+GRID_STEPS = [Fraction(1), Fraction(1), Fraction(2), Fraction(3), Fraction(1, 2), Fraction(1, 4), Fraction(3, 2), Fraction(5),
+              Fraction(3, 4), Fraction(16)]
+
+
+def gen_grid(rng):
+    """a seeded pattern of 2..5 step multipliers, at least two of them different: the series gets the time steps dt*m_i (cyclically);
+    all values dyadic, so the time stamps are exact"""
+    while True:
+        m = tuple(rng.choice(GRID_STEPS) for _ in range(rng.choice([2, 3, 3, 4, 5])))
+        if len(set(m)) > 1:
+            return m
+
+
 def underflow_shape(vals):
     """finding F8u: `reversals` multiplies two consecutive slopes; for doubles the product underflows to zero when
     |d1*d2| < 2^-1074 although both slopes are non-zero"""
@@ -903,8 +984,12 @@ def run(chk):
     chk.matchers["F8b"] = lambda f: f.get("clause") == "recount-find_reversals" and is_f8b_shape(f["input"]["series"])
     drv = core.Driver()
     rng = chk.rng
-    cases, forced, extra_sp = [], [], []
+    import random
+    grng = random.Random("C03 time grids %d" % chk.seed)     # own seeded stream: the choices below leave chk.rng's sequence as it was
+    cases, forced, extra_sp, cgrid = [], [], [], {}
     for c in core.load_corpus("C03"):
+        if "grid" in c:
+            cgrid[len(cases)] = tuple(frac(v) for v in c["grid"])
         cases.append([frac(v) for v in c["series"]])
         forced.append((frac(c["a"]), frac(c.get("b", "0"))) if "a" in c else None)
         extra_sp.append(c.get("spelling"))
@@ -976,21 +1061,24 @@ def run(chk):
             chk.fail("count(a*x+b, endpoints=True): ranges |a|*r, means a*m+b, same counts", dict(inp, endpoints=True),
                      show(transform(bt, a, b)), show(itt), clause="affine")
         # repetition / in-between insertion
-        t2 = []
+        t2, at2 = [], []                           # at2: where in time each refined sample sits (see refined_times)
         for i, v in enumerate(s):
             t2.append(v)
+            at2.append((i, Fraction(0)))
             kk = rng.random()
             if kk < 0.3:
                 t2.append(v)                       # repeat
+                at2.append((i, Fraction(1 + (i + len(s)) % 3, 4)))
             elif kk < 0.6 and i + 1 < len(s):
                 w = s[i + 1]
                 lam = Fraction(rng.choice([0, 1, 2, 3, 4]), 4)
                 t2.append(v + lam * (w - v))       # weakly between (dyadic)
+                at2.append((i, lam if 0 < lam < 1 else Fraction(1 + (i + len(s)) % 3, 4)))
         t3 = heavy_refine(rng, s)                  # several insertions per gap
         for tr in (t2, t3) if more else (t2,):
             inp2 = dict(series=[str(v) for v in s], refined=[str(v) for v in tr])
             for ep in (False, True):
-                e0, g0 = call(table, s, ep), call(table, tr, ep)
+                e0, g0 = (bt if ep and more else call(table, s, True) if ep else base), call(table, tr, ep)
                 if g0 != e0:
                     chk.fail("inserting repeated / in-between samples changes nothing", dict(inp2, endpoints=ep), show(e0), show(g0),
                              clause="refine")
@@ -1024,14 +1112,43 @@ def run(chk):
             if (incorpus and len(s) <= 12) or (nplots < (30 if chk.quick else 150) and rng.random() < 0.03):
                 names = names + list(PLOTS)
                 nplots += 1
+        # redundant samples time-stamped in between their neighbours (the refined series has a varying time step): through the GUI
+        # wrapper on every case in addition to the refined series on the continued grid, through one more seeded entry point instead
+        # of it (in addition to it on the audit subset), through all entry points on the corpus
+        apps = [n for n in names if n in APP_PLAIN]
+        other = grng.choice([n for n in names if n not in apps] or names)
+        timed = set(names) if incorpus else set(apps + [other] + ([grng.choice(names)] if sub else []))
         for name in names:
             chk.count("entry:" + name)
             eb = entry_clauses(name, s, t0, dt, a, b, t2, rep, skip=lambda: chk.dist("entry:not-applicable-skipped"),
-                               factors=(2, 4) if sub else (2,))
+                               factors=(2, 4) if sub else (2,), at2=at2 if name in timed else None,
+                               untimed=sub or name != other or name in apps)
             # tie of the entry point to count_cycles on the raw samples (an empty table cannot be unpacked by the GUI helper)
             if eb is not None and eb != project(name, base) and not (isinstance(eb, str) and not base and name in EMPTY_RAISES):
                 chk.disagree("entry==count_cycles", dict(series=[str(v) for v in s], entry=name, t0=str(t0), dt=str(dt)),
                              str(show(project(name, base)))[:300], str(show(eb))[:300])
+        # ---- the same clauses with the series stored on a NON-UNIFORM time grid (seeded pattern of steps dt*m) ----------------
+        # all entry points on the corpus, four of them on the audit subset; elsewhere the GUI wrapper (with or without time window)
+        # or one seeded other entry point, on a seeded 20 % of the cases (10 % of the long generated ones in the thorough tier)
+        if sub or grng.random() < (0.2 if chk.quick or len(s) <= 6 else 0.1):
+            mults = cgrid.get(k) or gen_grid(grng)
+            g = ("steps", dt, mults)
+            if incorpus:
+                gnames = [n for n in names if n not in PLOTS and n not in UNIFORM_ONLY]
+            elif sub:
+                more2 = [n for n in names if n in ENTRIES2 and n not in UNIFORM_ONLY and n != APP_PLAIN[1]]
+                gnames = (list(APP_PLAIN) + [grng.choice([n for n in ENTRIES if n != APP_PLAIN[0]])]
+                          + grng.sample(more2, min(1, len(more2))))
+            else:
+                gnames = [grng.choice(APP_PLAIN) if grng.random() < 0.6 else grng.choice(list(ENTRIES))]
+            chk.dist("non-uniform time grid: %d distinct steps" % len(set(mults)))
+            for name in gnames:
+                chk.count("entry on a non-uniform time grid:" + name)
+                eb = entry_clauses(name, s, t0, g, a, b, t2, rep, skip=lambda: chk.dist("entry:not-applicable-skipped"), at2=at2)
+                if eb is not None and eb != project(name, base) and not (isinstance(eb, str) and not base and name in EMPTY_RAISES):
+                    chk.disagree("entry==count_cycles", dict(series=[str(v) for v in s], entry=name, t0=str(t0), dt=str(dt),
+                                                             grid=[str(m) for m in mults]),
+                                 str(show(project(name, base)))[:300], str(show(eb))[:300])
         if sub:
             sps = [rng.choice(SPELLINGS), rng.choice(ARRAY_SPELLINGS)] if not incorpus else list(SPELLINGS)
             if extra_sp[k]:
@@ -1129,7 +1246,9 @@ def replay(rp):
         ts_history(s, frac(inp["t0"]), frac(inp["dt"]), a, b, inp["way"], report)
         return done()
     if "entry" in inp:
-        eb = entry_clauses(inp["entry"], s, frac(inp["t0"]), frac(inp["dt"]), a, b, t2, report)
+        dt = frac(inp["dt"]) if "grid" not in inp else ("steps", frac(inp["dt"]), tuple(frac(m) for m in inp["grid"]))
+        at2 = [(int(i), frac(lam)) for i, lam in inp["refined_at"]] if "refined_at" in inp else None
+        eb = entry_clauses(inp["entry"], s, frac(inp["t0"]), dt, a, b, t2, report, at2=at2)
         print("entry point: %s\n  %s\ncount_cycles on the raw samples:\n  %s" % (inp["entry"], show(eb),
                                                                                  show(project(inp["entry"], call(table, s)))))
         return done()
